@@ -60,23 +60,30 @@ def is_mts_requires_out(prog, pname, ev) -> bool:
 
 
 def routing_script(prog, rounds: int = 3, gate: bool = True) -> str:
-    """Every event of every exposed port in all four directions, `rounds` times."""
+    """Every event of every exposed port in all four directions, `rounds` times.  On a
+    multi-client port the claim changes hands between the rounds - once by release and claim,
+    once by a claim the component grants while the previous holder still holds it, followed by
+    that holder's release - so that the out-events of every round have exactly one receiver."""
     mci = mc_info(prog)
     lines = preamble(prog) + ['final', 'addresses']
 
-    def claim_for_a():
+    def claim_for(client):
         return [f'reply comp/{mci["port"]}/{mci["claim"]} {mci["grant"]}',
-                f'call {mci["port"]}/{mci["claim"]} A', 'quiesce']
+                f'call {mci["port"]}/{mci["claim"]} {client}', 'quiesce']
+
+    def release_by(client):
+        return [f'call {mci["port"]}/{mci["release"]} {client}', 'quiesce']
     if mci:
-        lines += claim_for_a()
-    for _ in range(rounds):
+        lines += claim_for('A')
+    for rnd in range(rounds):
+        holder, other = ('A', 'B') if rnd % 2 == 0 else ('B', 'A')
         for pname, ev, user_calls in prog.events():
             key = f'{pname}/{ev.name}'
             mc_port = bool(mci and mci['port'] == pname)
             if mc_port and ev.name in (mci['claim'], mci['release']):
                 continue
             if user_calls:
-                client = ' A' if mc_port else ''
+                client = f' {holder}' if mc_port else ''
                 if gate and is_mts_requires_out(prog, pname, ev):
                     lines += ['gate close', f'call {key}{client}', 'gate open', 'quiesce']
                 else:
@@ -85,5 +92,8 @@ def routing_script(prog, rounds: int = 3, gate: bool = True) -> str:
                 how = 'pump' if prog.mapping.get(pname) == 'MTS' else 'direct'
                 lines += [f'raise {key} {how}', 'quiesce']
         if mci:
-            lines += [f'call {mci["port"]}/{mci["release"]} A', 'quiesce'] + claim_for_a()
+            if rnd % 2 == 0:
+                lines += claim_for(other) + release_by(holder)
+            else:
+                lines += release_by(holder) + claim_for(other)
     return '\n'.join(lines) + '\n'
